@@ -607,6 +607,172 @@ theorem hanan_path_exists_partial (s : Scene) (i j : Nat) (A B : Conn)
   have := HPath_of_reach s pA.1 pA.2 hpA hr
   simpa [yA] using this
 
+/-- a connector end point vertex on a vertical line of the model is the vertex of a live end point lying
+    on that line -/
+theorem conn_vertex_provenance_v (s : Scene) (p : Seg × List LV) (hp : p ∈ s.lines.vs) (t : Rat) (k : Nat)
+    (hq : (⟨t, .conn k⟩ : LV) ∈ p.2) : ∃ c, s.fixDirs[k]? = some c ∧ c.x = p.1.p ∧ c.y = t := by
+  obtain ⟨_, e⟩ := lines_vs_form s p hp
+  rw [e] at hq
+  unfold vVerts at hq
+  rcases mem_ensureFin' hq with hq | hq
+  · rcases mem_ensureFin' hq with hq | hq
+    · obtain ⟨ph, hph, hq⟩ := List.mem_flatMap.mp hq
+      unfold vFrom at hq
+      split at hq
+      · rcases List.mem_append.mp hq with hq | hq
+        · obtain ⟨q, hqf, hqe⟩ := List.mem_map.mp hq
+          obtain ⟨hq1, hq2⟩ := List.mem_filter.mp hqf
+          have hqt : q.t = p.1.p := by simpa using hq2
+          injection hqe with e1 e2
+          have : q = ⟨p.1.p, .conn k⟩ := by
+            rcases q with ⟨qt, qk⟩
+            simp only at hqt e2
+            rw [hqt, e2]
+          rw [this] at hq1
+          obtain ⟨c, hc, ex, ey⟩ := conn_vertex_provenance s ph hph p.1.p k hq1
+          exact ⟨c, hc, ex, by rw [ey, e1]⟩
+        · split at hq
+          · simp at hq
+          · simp at hq
+      · simp at hq
+    · cases hq
+  · cases hq
+
+/-- a path of graph edges from `u` to `v` all of whose vertices lie on the vertical line `x` -/
+inductive VPath (G : List (GV × GV)) (x : Rat) : GV → GV → Prop
+  | refl (u : GV) : u.x = x → VPath G x u u
+  | step {u w v : GV} : (u, w) ∈ G → u.x = x → VPath G x w v → VPath G x u v
+
+theorem VPath_of_reach (s : Scene) (v : Seg) (vs : List LV) (hl : (v, vs) ∈ s.lines.vs) {a b : BP}
+    (hr : Reach (lineEdges (toBPs (dirsY s.fixDirs) vs)) a b) :
+    VPath s.graph v.p ⟨v.p, a.t, a.k⟩ ⟨v.p, b.t, b.k⟩ := by
+  induction hr with
+  | refl a => exact VPath.refl _ rfl
+  | @step a c b he _ ih =>
+    refine VPath.step ?_ rfl ih
+    unfold Scene.graph Lines.edges
+    rw [lines_conns]
+    apply List.mem_append_right
+    exact List.mem_flatMap.mpr ⟨(v, vs), hl, List.mem_map.mpr ⟨(a, c), he, rfl⟩⟩
+
+/-- **Hanan-type statement, one bend (`hanan_path_exists_L_partial`).**  End points `A` (number `i`) and `B`
+    (number `j`), `B` to the right of and below `A` (larger x, larger y); `A` may be left to the Right, `B`
+    upwards; boxes of positive size; the two legs of the L over the corner `(B.x, A.y)` cross no box (every
+    box the row `A.y` crosses strictly lies left of `A` or right of the corner, every box the column `B.x`
+    crosses strictly lies above the corner or below `B`) and carry no other live end point (corner
+    included).  Then the model graph contains the L-shaped path: along the row `A.y` from `A`'s vertex to a
+    DUMMY vertex at the corner, and along the column `B.x` from that vertex to `B`'s vertex.  Every step goes
+    towards larger x resp. y (`graph_edge_directed`), so its length is the Manhattan distance and it has one
+    bend — the minimum of length + penalty·bends over all orthogonal paths between two points that are not
+    on a common row or column.  (The other three orientations and the corner `(A.x, B.y)` are mirror images;
+    missing for the full Hanan statement: two and more bends.) -/
+theorem hanan_path_exists_L_partial (s : Scene) (i j : Nat) (A B : Conn)
+    (hA : s.fixDirs[i]? = some A) (hB : s.fixDirs[j]? = some B)
+    (hx : A.x < B.x) (hy : A.y < B.y) (hAr : A.d.right = true) (hBu : B.d.up = true)
+    (hwf : ∀ R ∈ s.rects, R.x0 < R.x1 ∧ R.y0 < R.y1)
+    (hrow : ∀ R ∈ s.rects, R.y0 < A.y → A.y < R.y1 → R.x1 ≤ A.x ∨ B.x ≤ R.x0)
+    (hcol : ∀ R ∈ s.rects, R.x0 < B.x → B.x < R.x1 → R.y1 ≤ A.y ∨ B.y ≤ R.y0)
+    (hothersRow : ∀ (k : Nat) (c : Conn), s.fixDirs[k]? = some c → c.y = A.y → A.x < c.x → c.x ≤ B.x → False)
+    (hothersCol : ∀ (k : Nat) (c : Conn), s.fixDirs[k]? = some c → c.x = B.x → A.y ≤ c.y → c.y < B.y → False) :
+    HPath s.graph A.y ⟨A.x, A.y, .conn i⟩ ⟨B.x, A.y, .node⟩ ∧
+    VPath s.graph B.x ⟨B.x, A.y, .node⟩ ⟨B.x, B.y, .conn j⟩ := by
+  have hlA : A.d.none = false := by simp [Dirs.none, hAr]
+  -- the row of A reaches the corner
+  obtain ⟨pA, hpA, yA, vA, bA, _, _, rA⟩ := endpoint_on_hline s i A hA hlA
+  have hcoord : ∀ c ∈ s.fixDirs, s.lo ≤ c.y ∧ c.x ≤ s.hi := by
+    intro c hc
+    obtain ⟨c', hc', e1, e2⟩ := fixDirs_pos s c hc
+    have hm : ∀ z ∈ [c'.x, c'.y], z ∈ s.coords := by
+      intro z hz
+      unfold Scene.coords
+      exact List.mem_append_right _ (List.mem_flatMap.mpr ⟨c', hc', hz⟩)
+    rw [← e1, ← e2]
+    exact ⟨(lo_hi_bound s _ (hm _ (by simp))).1, (lo_hi_bound s _ (hm _ (by simp))).2⟩
+  have hreach : B.x ≤ firstBelow s.hi (activeAt s.rects A.y) A.x A.y := by
+    rcases (firstBelow_is_first_blocking_side s.hi s.rects A.x A.y).2 with h | ⟨R, hR, h0, h1, hge, h⟩
+    · rw [h]; exact (hcoord B (List.mem_of_getElem? hB)).2
+    · rw [h]
+      rcases hrow R hR h0 h1 with hc | hc
+      · have := (hwf R hR).1; linarith
+      · exact hc
+  have hfA : B.x ≤ pA.1.f := le_trans hreach (rA hAr)
+  -- the column of B reaches the corner
+  have hroomB : firstAbove s.lo (activeAt (s.rects.map Rect.tr) B.x) B.y B.x ≤ A.y := by
+    rcases (firstAbove_is_first_blocking_side s.lo (s.rects.map Rect.tr) B.y B.x).2 with h | ⟨R', hR', h0, h1, hle, h⟩
+    · rw [h]; exact (hcoord A (List.mem_of_getElem? hA)).1
+    · rw [h]
+      obtain ⟨R, hR, rfl⟩ := List.mem_map.mp hR'
+      simp only [Rect.tr] at h0 h1 hle ⊢
+      rcases hcol R hR h0 h1 with hc | hc
+      · exact hc
+      · have := (hwf R hR).2; linarith
+  obtain ⟨pv, hpv, xv, vBv, bv, fv⟩ := (endpoint_on_vline s j B hB).1 hBu (lt_of_le_of_lt hroomB hy)
+  have hbv : pv.1.b ≤ A.y := le_trans bv hroomB
+  -- the corner vertex is shared and is a dummy vertex
+  have hcr : crosses pA.1 pv.1 = true := by
+    unfold crosses
+    simp only [Bool.and_eq_true, decide_eq_true_eq]
+    rw [yA, xv]
+    exact ⟨⟨⟨hbv, le_trans (le_of_lt hy) fv⟩, by linarith⟩, hfA⟩
+  obtain ⟨k, hk1, hk2⟩ := crossing_shared s pA pv hpA hpv hcr
+  rw [xv] at hk1
+  rw [yA] at hk2
+  have hknode : k = .node := by
+    cases k with
+    | node => rfl
+    | conn k' =>
+      exfalso
+      obtain ⟨c', hc', ex, ey⟩ := conn_vertex_provenance s pA hpA B.x k' hk1
+      exact hothersRow k' c' hc' (by rw [ey, yA]) (by rw [ex]; exact hx) (by rw [ex])
+  subst hknode
+  constructor
+  · -- along the row
+    have ha := mem_toBPs_of_mem (dirs := dirsX s.fixDirs) vA
+    have hb := mem_toBPs_of_mem (dirs := dirsX s.fixDirs) hk1
+    have fa : (dirsX s.fixDirs (.conn i)).2 = true := by simp [dirsX, hA, hAr]
+    have hmid : ∀ c ∈ toBPs (dirsX s.fixDirs) pA.2, A.x < c.t → c.t < B.x → c.k.isConn = false := by
+      intro c hc h1 h2
+      obtain ⟨q, hq, et, ek⟩ := mem_toBPs hc
+      cases hk : c.k with
+      | node => rfl
+      | conn k' =>
+        exfalso
+        have hq' : (⟨c.t, .conn k'⟩ : LV) ∈ pA.2 := by
+          have : q = ⟨c.t, .conn k'⟩ := by
+            rcases q with ⟨qt, qk⟩
+            simp only at et ek
+            rw [et, ← ek, hk]
+          rw [← this]; exact hq
+        obtain ⟨c', hc', ex, ey⟩ := conn_vertex_provenance s pA hpA c.t k' hq'
+        exact hothersRow k' c' hc' (by rw [ey, yA]) (by rw [ex]; exact h1) (by rw [ex]; exact le_of_lt h2)
+    have hr := line_reach (toBPs_sorted (dirsX s.fixDirs) pA.2) _ _ _ ha hb hx
+      (fun _ => fa) (fun h => by simp [VK.isConn] at h) hmid (Nat.le_refl _)
+    have := HPath_of_reach s pA.1 pA.2 hpA hr
+    simpa [yA] using this
+  · -- along the column
+    have ha := mem_toBPs_of_mem (dirs := dirsY s.fixDirs) hk2
+    have hb := mem_toBPs_of_mem (dirs := dirsY s.fixDirs) vBv
+    have fb : (dirsY s.fixDirs (.conn j)).1 = true := by simp [dirsY, hB, hBu]
+    have hmid : ∀ c ∈ toBPs (dirsY s.fixDirs) pv.2, A.y < c.t → c.t < B.y → c.k.isConn = false := by
+      intro c hc h1 h2
+      obtain ⟨q, hq, et, ek⟩ := mem_toBPs hc
+      cases hk : c.k with
+      | node => rfl
+      | conn k' =>
+        exfalso
+        have hq' : (⟨c.t, .conn k'⟩ : LV) ∈ pv.2 := by
+          have : q = ⟨c.t, .conn k'⟩ := by
+            rcases q with ⟨qt, qk⟩
+            simp only at et ek
+            rw [et, ← ek, hk]
+          rw [← this]; exact hq
+        obtain ⟨c', hc', ex, ey⟩ := conn_vertex_provenance_v s pv hpv c.t k' hq'
+        exact hothersCol k' c' hc' (by rw [ex, xv]) (by rw [ey]; exact le_of_lt h1) (by rw [ey]; exact h2)
+    have hr := line_reach (toBPs_sorted (dirsY s.fixDirs) pv.2) _ _ _ ha hb hy
+      (fun h => by simp [VK.isConn] at h) (fun _ => fb) hmid (Nat.le_refl _)
+    have := VPath_of_reach s pv.1 pv.2 hpv hr
+    simpa [xv] using this
+
 /-! ### non-vacuity: a closed scene (one routing box, one connector with a restricted source) -/
 
 /-- box [2,4]×[2,4]; source (0,3) may only be left to the Right, target (6,3) in all directions -/
@@ -633,5 +799,18 @@ def demoScene2 : Scene :=
 #guard demoScene2.rects.all fun R => decide (R.x0 < R.x1) && (!(decide (R.y0 < 3) && decide (3 < R.y1)) || decide (R.x1 ≤ 0) || decide (6 ≤ R.x0))
 #guard demoScene2.graph.contains (⟨0, 3, .conn 0⟩, ⟨2, 3, .node⟩) && demoScene2.graph.contains (⟨2, 3, .node⟩, ⟨4, 3, .node⟩) &&
        demoScene2.graph.contains (⟨4, 3, .node⟩, ⟨6, 3, .conn 1⟩)
+
+/-- non-vacuity of `hanan_path_exists_L_partial`: box [2,4]×[5,7], `A` = (0,3), `B` = (6,9): the row y = 3 and
+    the column x = 6 miss the box; the hypotheses hold and the L-shaped path over (6,3) is there -/
+def demoScene3 : Scene :=
+  ⟨[⟨2, 5, 4, 7⟩], [⟨0, 3, ⟨true, true, true, true⟩⟩, ⟨6, 9, ⟨true, true, true, true⟩⟩]⟩
+
+#guard demoScene3.fixDirs[0]? == some ⟨0, 3, ⟨true, true, true, true⟩⟩ &&
+       demoScene3.fixDirs[1]? == some ⟨6, 9, ⟨true, true, true, true⟩⟩
+#guard demoScene3.rects.all fun R => decide (R.x0 < R.x1) && decide (R.y0 < R.y1) &&
+       (!(decide (R.y0 < 3) && decide (3 < R.y1)) || decide (R.x1 ≤ 0) || decide (6 ≤ R.x0)) &&
+       (!(decide (R.x0 < 6) && decide (6 < R.x1)) || decide (R.y1 ≤ 3) || decide (9 ≤ R.y0))
+#guard demoScene3.graph.contains (⟨0, 3, .conn 0⟩, ⟨2, 3, .node⟩) && demoScene3.graph.contains (⟨4, 3, .node⟩, ⟨6, 3, .node⟩) &&
+       demoScene3.graph.contains (⟨6, 3, .node⟩, ⟨6, 5, .node⟩) && demoScene3.graph.contains (⟨6, 7, .node⟩, ⟨6, 9, .conn 1⟩)
 
 end AdaptaVerif.Props.C05OrthVis
